@@ -125,7 +125,7 @@ def gen_case(rng, tier):
             thr = 1e-3
         if max_steps is None and thr == 0.0:
             thr = 1e-3  # keep unlimited training finite
-        return {
+        case = {
             "kind": rng.choice(["ml", "ml", "map"]), "c": c, "d": d,
             "means": L(means), "variances": L(variances), "weights": L(gen_simplex(rng, c)),
             "floor": _rand_floor(rng, rs, c, d, scale2),
@@ -145,14 +145,53 @@ def gen_case(rng, tier):
                                  {"op": "floor_bump", "up": rng.choice([2.0, 10.0, 50.0])}])
                      for _ in range(rng.choice([0, 0, 1, 2, 3]))],
         }
+        if rng.random() < 0.12:
+            # special but valid parameter values, stored as they are (no training in between)
+            case["pretrain"], case["post"], case["pdtype"] = 0, [], "float64"
+            sp = rng.choice(["tiny_variances", "zero_weights", "negative_zero_means", "huge_values",
+                             "denormals"])
+            case["special"] = sp
+            if sp == "tiny_variances":
+                fl = rng.choice([1e-20, 1e-30, 1e-300, 2.3e-308])
+                case["floor"] = fl
+                v = np.array(variances)
+                for _ in range(rng.randint(1, c * d)):
+                    v[rng.randrange(c), rng.randrange(d)] = fl * rng.choice([1.0, 1.0, 3.0, 1e3])
+                case["variances"] = L(v)
+            elif sp == "zero_weights" and c >= 2:
+                w = np.array(case["weights"])
+                for j in rng.sample(range(c), rng.randint(1, c - 1)):
+                    w[j] = 0.0
+                case["weights"] = L(w / w.sum())
+            elif sp == "negative_zero_means":
+                mm = np.array(means)
+                for _ in range(rng.randint(1, c * d)):
+                    mm[rng.randrange(c), rng.randrange(d)] = rng.choice([-0.0, 0.0])
+                case["means"] = L(mm)
+            elif sp == "huge_values":
+                case["means"] = L(means * rng.choice([1e100, 1e150, 1e300]))
+                case["variances"] = L(variances * rng.choice([1e100, 1e200, 1e300]))
+            else:
+                mm = np.array(means)
+                for _ in range(rng.randint(1, c * d)):
+                    mm[rng.randrange(c), rng.randrange(d)] = rng.choice([5e-324, -5e-324, 1e-310])
+                case["means"] = L(mm)
+        return case
     src = rng.choice(["acc", "acc", "zero", "values"])
+    vals_n = sig6(rs.uniform(0, 50, size=c))
+    vals_px = sig6(rs.randn(c, d) * 100 * scale)
+    if rng.random() < 0.25:
+        for _ in range(rng.randint(1, c)):
+            vals_n[rng.randrange(c)] = rng.choice([0.0, 0.0, 5e-324, 1e300])
+        for _ in range(rng.randint(1, c * d)):
+            vals_px[rng.randrange(c), rng.randrange(d)] = rng.choice([0.0, -0.0, 5e-324, -1e300])
     return {
         "kind": "stats", "c": c, "d": d, "src": src,
         "means": L(means), "variances": L(variances), "weights": L(gen_simplex(rng, c)),
         "X": L(X),
         "values": {"t": rng.randint(0, 1000), "ll": float(sig6(-rs.uniform(0, 1e4))),
-                   "n": L(sig6(rs.uniform(0, 50, size=c))),
-                   "sum_px": L(sig6(rs.randn(c, d) * 100 * scale)),
+                   "n": L(vals_n),
+                   "sum_px": L(vals_px),
                    "sum_pxx": L(sig6(rs.uniform(0, 1e4, size=(c, d)) * scale2))},
         "chain": _gen_chain(rng, False),
         "other_shape": [rng.randint(1, 4), rng.randint(1, 4)],
@@ -400,6 +439,7 @@ def _run_machine(case, rec, store):
             live.variance_thresholds = old
         rec.probe("state_reached_by_hand_after_training")
     rec.probe("map_machine", case["kind"] == "map")
+    rec.probe("special_values_" + str(case.get("special")), case.get("special") is not None)
     rec.probe("non_float64_parameters", case.get("pdtype", "float64") != "float64")
     rec.probe("machine_with_10_or_more_components", case["c"] >= 10)
     rec.probe("limit_none", case["max_steps"] is None)
